@@ -253,6 +253,10 @@ def run(chk, replay):
                 variants.append(("sched", None, list(perm), False))
             if has_serial:
                 variants.append(("sched", None, list(range(1, n + 1)), True))
+            if chk.tier == "quick" and n in (2, 3):
+                # real worker processes also in the quick tier: what a task does to module globals or to its
+                # arguments must not reach the parent, which an in-process pool cannot show
+                variants.append(("gated", 2, list(range(n, 0, -1)), False))
             if chk.tier == "thorough":
                 ws = [1, 2, 3, 4, 8, 16]
                 perms = sorted(orders[n])
